@@ -23,6 +23,11 @@ import (
 // lock order).
 //
 
+// Largest WRITE accepted (announced as wtmax).  The data blocks must fit in
+// one journal transaction (jrnl.LogBlocks) together with the block of a
+// partial first/last block, the inode, indirect and bitmap blocks.
+const maxWriteBytes uint64 = (jrnl.LogBlocks + 1) / 2 * 4096
+
 func errRet(op *fstxn.FsTxn, status *nfstypes.Nfsstat3, err nfstypes.Nfsstat3) {
 	*status = err
 	util.DPrintf(2, "errRet %v", err)
@@ -302,7 +307,7 @@ func (nfs *Nfs) NFSPROC3_WRITE(args nfstypes.WRITE3args) nfstypes.WRITE3res {
 		errRet(op, &reply.Status, nfstypes.NFS3ERR_INVAL)
 		return reply
 	}
-	if uint64(args.Count) >= jrnl.LogBytes {
+	if uint64(args.Count) > maxWriteBytes {
 		errRet(op, &reply.Status, nfstypes.NFS3ERR_INVAL)
 		return reply
 	}
@@ -847,7 +852,7 @@ func (nfs *Nfs) NFSPROC3_FSINFO(args nfstypes.FSINFO3args) nfstypes.FSINFO3res {
 	reply.Resok.Rtmax = 16 * 4096
 	reply.Resok.Rtmult = 4096
 	reply.Resok.Rtpref = reply.Resok.Rtmax
-	reply.Resok.Wtmax = nfstypes.Uint32(jrnl.LogBytes)
+	reply.Resok.Wtmax = nfstypes.Uint32(maxWriteBytes)
 	reply.Resok.Wtpref = 16 * 4096
 	reply.Resok.Wtmult = 4096
 	reply.Resok.Dtpref = 16 * 4096
